@@ -17,7 +17,7 @@ def run_c11(tier):
     ck.add_states(res, 'ECDSA verification over curve x hasher class x signature class')
     cases = tlc_cases(res.out)
     reps = 6 if tier == 'quick' else 250
-    jobs = [{'kind': 'ecdsa', 'seed': seed * 1000003 + i + 7919 * r, 'case': cs} for r in range(reps) for i, cs in enumerate(cases)]
+    jobs = [{'kind': 'ecdsa', 'seed': vlib.jseed(seed, i, r), 'case': cs} for r in range(reps) for i, cs in enumerate(cases)]
     execute(ck, 'C11', jobs)
     for cs in cases:
         ck.case(vlib.digest([cs['curve'], cs['hasher'], cs['sig']]), cs['sig'] != 'signed')
@@ -40,7 +40,7 @@ def run_c12(tier):
     ck.add_states(res, 'seed lengths 0..300 for 3 algorithms; key-object life cycles (origin x PublicKey / re-decode calls)')
     cases = tlc_cases(res.out)
     reps = 2 if tier == 'quick' else 60
-    jobs = [{'kind': 'keygen', 'seed': seed * 1000003 + i + 7919 * r, 'case': cs} for r in range(reps) for i, cs in enumerate(cases)]
+    jobs = [{'kind': 'keygen', 'seed': vlib.jseed(seed, i, r), 'case': cs} for r in range(reps) for i, cs in enumerate(cases)]
     execute(ck, 'C12', jobs)
     for cs in cases:
         ck.case(vlib.digest([cs['job'], cs['calls']]), True)
